@@ -610,6 +610,99 @@ def w5_bundled_state(ctx: Ctx):
         raise ShapeError(f'only {n} bundling methods with packed state found')
 
 
+def w6_reserved_names(ctx: Ctx):
+    """An FPCore reader takes `E`, `PI`, `LN2`, `NAN`, `TRUE`, ... for constants wherever they stand; the writer emits an
+    FPy variable under its own spelling (`str(e.name)`).  So no variable may reach emission spelled like a constant:
+    (a) the normalisation every function goes through ends in a renaming pass, on every path, and nothing is emitted that
+    did not go through it; (b) that pass, evaluated from its source on stand-in name sets, renames exactly the variables
+    spelled like a constant (captured names -- callees -- keep theirs), to fresh names that are neither constants nor
+    taken; (c) the set of spellings it asks about is the reader's own (`reserved_constants` of the FPCore parser) and
+    covers every constant the writer's table emits."""
+    from ..cfg import CFG, find_path
+    from ..minipy import Interp, Obj
+    funcs = {s.name: s for s in ctx.repo.module(BACK).tree.body if isinstance(s, ast.FunctionDef)}
+    passes, ren = funcs.get('_apply_fpc_passes'), funcs.get('_rename_reserved_names')
+    if passes is None:
+        raise ShapeError('_apply_fpc_passes not found')
+    if ren is None:
+        ctx.bad(BACK, passes, '_apply_fpc_passes', 'variables spelled like FPCore constants are renamed before emission',
+                'no renaming pass: `E = x / y; PI = E + y; return PI / E` prints a core that evaluates to pi / e')
+        return
+    # (a)
+    cfg = CFG(passes)
+    renames = [n for n in cfg.nodes_of('stmt') if any(call_name(k) == '_rename_reserved_names' for k in calls_in(n.ast))]
+    others = [n for n in cfg.nodes_of('stmt') if n not in renames and isinstance(n.ast, ast.Assign) and isinstance(n.ast.value, ast.Call) and (call_name(n.ast.value) or '').endswith('.apply')]
+    for r in cfg.returns():
+        p = find_path(cfg, cfg.entry, r, avoid=lambda n: n in renames)
+        ctx.check(bool(renames) and p is None, BACK, r.ast, '_apply_fpc_passes', 'every function leaves normalisation through the renaming of reserved spellings',
+                  'a path returns without it')
+        # (the passes that follow FreeVarElim take the names they introduce from a generator; FreeVarElim binds a captured
+        # value under the spelling it was captured with -- a module constant `PI = 3.14159` -- so it comes first)
+        late = [o for o in others if call_name(o.ast.value) == 'FreeVarElim.apply' and renames and all(find_path(cfg, rn, o) is not None for rn in renames)]
+        ctx.check(not late, BACK, late[0].ast if late else r.ast, '_apply_fpc_passes', 'captured values are bound locally (under their own spelling) before the renaming, not after',
+                  f'{[norm(o.ast) for o in late]} runs after it: a captured `PI = 3.14159` is emitted as the constant PI')
+    cm = ctx.fn(BACK, 'FPCoreCompiler.compile_module')
+    ccfg = CFG(cm)
+    maps = [n for n in ccfg.nodes_of('stmt') if '_apply_fpc_passes' in norm(n.ast) and 'module.map' in norm(n.ast)]
+    emits = [n for n in ccfg.nodes if n.ast is not None and any(call_name(k) == 'self._emit_entry' for k in calls_in(n.ast))]
+    ok = bool(maps) and bool(emits) and all(find_path(ccfg, ccfg.entry, e, avoid=lambda n: n in maps) is None for e in emits)
+    ctx.check(ok, BACK, cm, 'FPCoreCompiler.compile_module', 'every function of the module is normalised before any entry is emitted', 'an entry is emitted from an unnormalised module')
+    callers = [(q, k) for q, f in ctx.repo.functions(BACK) for k in calls_in(f) if (call_name(k) or '').endswith('_emit_entry') and q != 'FPCoreCompiler.compile_module']
+    ctx.check(not callers, BACK, callers[0][1] if callers else cm, 'FPCoreCompiler._emit_entry', 'entries are emitted from compile_module only', f'also from {[q for q, _ in callers]}')
+    # (b)
+    RESERVED = {'E', 'PI', 'TRUE', 'NAN', 'LN2'}
+
+    def str_(o):
+        return o.fields['__str__']() if isinstance(o, Obj) else str(o)
+
+    def nid(base, count=None):
+        o = Obj('NamedId', base=base, count=count)
+        o.fields['__str__'] = lambda o=o: o.fields['base'] + ('' if o.fields['count'] is None else str(o.fields['count']))
+        return o
+    for what, spelled, free in (('E, PI bound, e taken', ['E', 'PI', 'x', 'e'], []), ('nothing clashes', ['x', 'y'], []), ('E is a captured callee', ['E', 'x'], ['E']),
+                                ('every reserved spelling', sorted(RESERVED) + ['t'], [])):
+        ids = {b: nid(b) for b in spelled}
+        fresh: list = []
+        calls: list = []
+
+        class G:
+            def __init__(self, reserved):
+                self.taken = {str_(n) for n in reserved}
+
+            def fresh(self, prefix='t'):
+                name, k = prefix, 0
+                while name in self.taken:
+                    k += 1
+                    name = f'{prefix}{k}'
+                self.taken.add(name)
+                o = nid(name)
+                fresh.append(o)
+                return o
+
+        fd = Obj('FuncDef', free_vars={ids[b] for b in free})
+        it = Interp(funcs, {}, globals_={'reserved_constants': {k: None for k in RESERVED}, 'str': str_},
+                    overrides={'DefineUse.analyze': lambda f: Obj('DefineUseAnalysis', names=lambda: set(ids.values())), 'Gensym': lambda reserved=None: Obj('Gensym', fresh=G(reserved or ()).fresh),
+                               'RenameTarget.apply': lambda f, m: (calls.append(m), Obj('FuncDef', renamed=True))[1], 'str': str_})
+        out = it.call_function(ren, [fd])
+        want = {b for b in spelled if b in RESERVED and b not in free}
+        if not want:
+            ok = not calls and out is fd
+            got: object = 'a renaming' if calls else 'none'
+        else:
+            m = calls[0] if len(calls) == 1 else {}
+            keys = {str_(k) for k in m}
+            vals = [str_(v) for v in m.values()]
+            ok = keys == want and len(set(vals)) == len(vals) and not (set(vals) & (RESERVED | set(spelled))) and isinstance(out, Obj) and out.fields.get('renamed') is True
+            got = {str_(k): str_(v) for k, v in m.items()}
+        ctx.check(ok, BACK, ren, '_rename_reserved_names', f'{what}: exactly {sorted(want) or "nothing"} renamed, to fresh spellings', f'got {got}')
+    # (c)
+    imp = [s for s in ctx.repo.module(BACK).tree.body if isinstance(s, ast.ImportFrom) and any(a.name == 'reserved_constants' for a in s.names)]
+    ctx.check(len(imp) == 1 and (imp[0].module or '').endswith('fpbench.fpcparser'), BACK, imp[0] if imp else ren, '_rename_reserved_names',
+              'the reserved spellings are the FPCore parser\'s own table of constants', 'taken from elsewhere')
+    uses = [n for n in ast.walk(ren) if isinstance(n, ast.Compare) and any(isinstance(o, ast.In) for o in n.ops) and norm(n.comparators[0]) == 'reserved_constants' and norm(n.left).startswith('str(')]
+    ctx.check(bool(uses), BACK, ren, '_rename_reserved_names', 'a name is asked about by its printed spelling', 'not compared as printed')
+
+
 def w4_ranges(ctx: Ctx):
     """`range` is lowered to a tensor: an element count and a formula for element i.  The three lowerings are built, from
     their source, over symbolic operands, and the resulting FPCore terms are evaluated with the annotation semantics of
@@ -840,6 +933,7 @@ def r3_loop_condition(ctx: Ctx):
 
 
 RULES = [
+    Rule('C12.W6', 'writer: no variable reaches emission spelled like an FPCore constant', w6_reserved_names, 8, 'F,T'),
     Rule('C12.W5', 'bundling: the variables a branch or loop changes are packed and unpacked in one order', w5_bundled_state, 3, 'F'),
     Rule('C12.W4', 'writer: the tensor a range lowers to lists the integers of the range (count and element formula, evaluated under the annotation semantics)', w4_ranges, 3, 'T'),
     Rule('C12.W3', 'writer: a comprehension over several iterables lists its elements outermost-first, reads its own iteration variable and binds the targets', w3_nested_comprehensions, 4, 'T,F'),
@@ -858,6 +952,18 @@ RULES = [
 from ..selftest import Mutant  # noqa: E402
 
 MUTANTS = [
+    Mutant('variables-emitted-under-reserved-spellings', BACK, "    fd = IfBundling.apply(fd)\n    fd = _rename_reserved_names(fd)\n", "    fd = IfBundling.apply(fd)\n", 'C12.W6',
+           'finding F115 before its repair: E = x / y; PI = E + y; return PI / E prints a core that evaluates to pi / e'),
+    Mutant('captured-callees-renamed-too', BACK, "        (n for n in names if str(n) in reserved_constants and n not in fd.free_vars),", "        (n for n in names if str(n) in reserved_constants),", 'C12.W6',
+           'a callee is referenced by name: renaming the reference names an operator that does not exist'),
+    Mutant('renaming-keeps-the-capitals', BACK, "gensym.fresh(n.base.lower())", "gensym.fresh(n.base)", 'C12.W6',
+           'E becomes E<k>, which is no constant either', expect='silent'),
+    Mutant('renaming-runs-before-the-bundling-passes', BACK, "    fd = IfBundling.apply(fd)\n    fd = _rename_reserved_names(fd)\n    return fd", "    fd = _rename_reserved_names(fd)\n    fd = IfBundling.apply(fd)\n    return fd", 'C12.W6',
+           'the bundling passes take the names they introduce from a generator', expect='silent'),
+    Mutant('renaming-runs-before-captured-values-are-bound', BACK, "    fd = FreeVarElim.apply(fd)\n", "    fd = FreeVarElim.apply(_rename_reserved_names(fd))\n", 'C12.W6', expect='silent', why='renamed twice: still the last pass'),
+    Mutant('renaming-only-before-captured-values-are-bound', BACK, "    fd = FreeVarElim.apply(fd)\n    fd = ConstFold.apply(fd, enable_op=False)\n    fd = ForUnpack.apply(fd)\n    fd = ForBundling.apply(fd)\n    fd = WhileBundling.apply(fd)\n    fd = IfBundling.apply(fd)\n    fd = _rename_reserved_names(fd)\n",
+           "    fd = _rename_reserved_names(fd)\n    fd = FreeVarElim.apply(fd)\n    fd = ConstFold.apply(fd, enable_op=False)\n    fd = ForUnpack.apply(fd)\n    fd = ForBundling.apply(fd)\n    fd = WhileBundling.apply(fd)\n    fd = IfBundling.apply(fd)\n", 'C12.W6',
+           'a captured module constant PI = 3.14159 is bound under its own spelling after the renaming'),
     Mutant('if-state-unpacked-in-sorted-order', 'fpy2/transform/if_bundling.py', "            s = Assign(TupleBinding(mutated + intros, None), None, Var(t, None), None)", "            s = Assign(TupleBinding(sorted(mutated + intros), None), None, Var(t, None), None)", 'C12.W5',
            'seeded change C12e: a mutated x and an introduced c come out swapped after the if'),
     Mutant('loop-state-unpacked-reversed', 'fpy2/transform/while_bundling.py', "            s = Assign(TupleBinding(mutated, None), None, Var(t, None), None)", "            s = Assign(TupleBinding(mutated[::-1], None), None, Var(t, None), None)", 'C12.W5'),
